@@ -918,6 +918,7 @@ var streams = map[string]stream{
 	"scases":  {"scases", "scase", "scase_model_ok", "scase_prop_ok", "(fun _ : scase => false)"},
 	"pcases":  {"pcases", "pcase", "pcase_model_ok", "pcase_prop_ok", "(fun _ : pcase => false)"},
 	"ipcases": {"ipcases", "ipcase", "ipcase_model_ok", "(fun _ : ipcase => true)", "(fun _ : ipcase => false)"},
+	"xcases":  {"xcases", "xcase", "xcase_model_ok", "xcase_prop_ok", "(fun c : xcase => ecase_outside (xc_e c))"},
 }
 
 func writeStream(dir, kind string, shardSize int, cases []string, js []any) []string {
@@ -936,6 +937,7 @@ func main() {
 	tier := flag.String("tier", "quick", "quick|thorough")
 	out := flag.String("out", "", "output directory")
 	replay := flag.String("replay", "", "replay file (JSON: kind=eval|sort|parse|ip)")
+	fwd := flag.String("forwarder", "", "path of the forwarder binary built from the source tree (scripts through the real proxy)")
 	only := flag.String("only", "", "pool: run only the goroutines-through-the-pool stream (binary built with -race)")
 	flag.Parse()
 	if err := os.MkdirAll(*out, 0o755); err != nil {
@@ -950,6 +952,8 @@ func main() {
 		Outcomes  map[string]int `json:"evaluation_outcomes"`
 		Results   map[string]int `json:"distinct_results"`
 		Pool      poolReport     `json:"pool"`
+		E2E       map[string]int `json:"e2e_routes"`
+		E2EError  string         `json:"e2e_error,omitempty"`
 		Shards    []string       `json:"shards"`
 		ShardSize int            `json:"shard_size"`
 		Samples   []string       `json:"samples_scripts"`
@@ -966,8 +970,11 @@ func main() {
 		var rp struct {
 			Kind string `json:"kind"`
 			ECase
-			Input string `json:"input"`
-			Text  string `json:"text"`
+			Input string   `json:"input"`
+			Text  string   `json:"text"`
+			URLs  []string `json:"urls"`
+			A     string   `json:"upstream_a"`
+			B     string   `json:"upstream_b"`
 		}
 		if err := json.Unmarshal(data, &rp); err != nil {
 			panic(err)
@@ -976,6 +983,13 @@ func main() {
 		case "eval":
 			s, _ := observeE(rp.ECase)
 			m.Shards = writeStream(*out, "ecases", 250, []string{s}, []any{rp.ECase})
+		case "route":
+			xc, xj, _, err := runPACThroughProxy(*fwd, *out, r, 1, &XCase{Tree: rp.ECase.Tree, URLs: rp.URLs, A: rp.A, B: rp.B})
+			if err != nil {
+				fmt.Println("replay:", err)
+				os.Exit(3)
+			}
+			m.Shards = writeStream(*out, "xcases", 250, xc, xj)
 		case "sort":
 			c := SCase{rp.ECase.Env, rp.Input}
 			m.Shards = writeStream(*out, "scases", 250, []string{observeS(c)}, []any{c})
@@ -1089,6 +1103,23 @@ func main() {
 	}
 	m.Counts["ip_texts"] = len(ic)
 	m.Shards = append(m.Shards, writeStream(*out, "ipcases", m.ShardSize, ic, ij)...)
+
+	// ---- stream 6: generated scripts through the real binary (--pac), routes observed
+	if *fwd != "" {
+		nScripts := 8
+		if *tier == "thorough" {
+			nScripts = 80
+		}
+		xc, xj, st, err := runPACThroughProxy(*fwd, *out, r, nScripts, nil)
+		if err != nil {
+			m.E2EError = err.Error()
+		} else {
+			m.E2E = st
+			m.Counts["scripts_through_the_real_proxy"] = nScripts
+			m.Counts["requests_through_the_real_proxy"] = len(xc)
+			m.Shards = append(m.Shards, writeStream(*out, "xcases", m.ShardSize, xc, xj)...)
+		}
+	}
 
 	// ---- stream 5: goroutines through the pool vs sequential answers
 	m.Pool = poolRun(r, poolScripts, poolG, poolPer)
